@@ -1,0 +1,23 @@
+//go:build verif
+
+package adapter
+
+// VerifIndexes returns copies of the two indexes (room -> socket IDs, socket ID -> rooms) of an
+// in-memory adapter, read under the adapter's mutex. ok is false for any other Adapter.
+func VerifIndexes(a Adapter) (rooms map[Room][]SocketID, sids map[SocketID][]Room, ok bool) {
+	m, ok := a.(*inMemoryAdapter)
+	if !ok {
+		return nil, nil, false
+	}
+	m.mu.Lock()
+	defer m.mu.Unlock()
+	rooms = make(map[Room][]SocketID, len(m.rooms))
+	for room, set := range m.rooms {
+		rooms[room] = set.ToSlice()
+	}
+	sids = make(map[SocketID][]Room, len(m.sids))
+	for sid, set := range m.sids {
+		sids[sid] = set.ToSlice()
+	}
+	return rooms, sids, true
+}
